@@ -256,6 +256,41 @@ def gen_cases(ctx):
         for m in models:
             for s in softs:
                 add(m, s, "devdb", seq)
+    # cross-branch models: the regex chain of one node followed by the regex of ANOTHER node's child.  No database
+    # key stands for such a model, but a hierarchy built wrongly (children filed under a node that merely has the
+    # same regex, e.g. " SN" under Mellanox and under NVIDIA) shows only on them: a leaf true without its parents.
+    def chain_of(seq):
+        return [rx_of[seq[:i]] for i in range(1, len(seq) + 1)] if all(seq[:i] in rx_of for i in range(1, len(seq) + 1)) else None
+    kids_of: dict = {}
+    for seq, _ in entries:
+        kids_of.setdefault(seq[:-1], []).append(seq)
+    by_rx: dict = {}
+    for seq, rx in entries:
+        by_rx.setdefault(rx, []).append(seq)
+    cross = []
+    for rx, seqs in by_rx.items():          # nodes sharing one regex source: every child of one under each other
+        for a in seqs:
+            for b in seqs:
+                if a != b:
+                    cross += [(b, c) for c in kids_of.get(a, [])]
+    rng = ctx.rng("cross")
+    inner = [seq for seq, _ in entries if len(seq) >= 2]
+    for _ in range(1500 if ctx.thorough else 150):
+        b, c = rng.choice(inner), rng.choice(inner)
+        if c[:-1] != b and c != b:
+            cross.append((b, c))
+    n_cross = 0
+    for b, c in cross:
+        ch = chain_of(b)
+        if ch is None:
+            continue
+        try:
+            models = synth_models(ch + [rx_of[c]], 1)
+        except re.error:
+            models = []
+        for m in models:
+            n_cross += 1
+            add(m, "", "cross")
     for v, m in CANONICAL_DESIGN.items():
         for s in softs[:2]:
             add(m, s, "canonical")
@@ -271,6 +306,7 @@ def gen_cases(ctx):
         "devdb_sequences": len(entries), "models_per_sequence": want, "soft_shapes": softs,
         "cases_devdb": sum(c["src"] == "devdb" for c in cases),
         "cases_canonical": sum(c["src"] == "canonical" for c in cases),
+        "cases_cross_branch": sum(c["src"] == "cross" for c in cases),
         "cases_uncovered": sum(c["src"] == "uncovered" for c in cases),
         "registration_permutations": len(perms),
         "sequences_without_synthesised_model": unsynth,
@@ -453,6 +489,11 @@ def _run_once(ctx, last: bool) -> bool:
     sigs_seen = set()
     for i in sorted(res["holds"]):
         parts = {"hier": i not in res["hier"], "vendor": i not in res["vendor"], "runtime": i not in res["runtime"]}
+        if cases[i]["src"] == "cross" and parts["hier"]:
+            # a cross-branch string stands for no database key: it is outside the property's quantifier except for
+            # the hierarchy clause, which C18_prefix_closed states for EVERY model string (such strings can belong
+            # to two vendor families at once, e.g. 'Cisco ... Nexus' with an XR hit)
+            continue
         sig, what = signature(cases[i], results[i], parts)
         if sig in sigs_seen:
             continue
